@@ -143,17 +143,21 @@ func (e c06Ev) String() string {
 }
 
 type c06Conn struct {
-	script []c06Ev
-	armed  bool
-	log    []c06Ev // events in the order they were consumed (data events split as the reads split them)
-	closed bool
+	script   []c06Ev
+	armed    bool
+	log      []c06Ev // events in the order they were consumed (data events split as the reads split them)
+	eofArmed bool    // an armed read already returned EOF: the next armed read hits the deadline
+	closed   bool
 }
 
 func (c *c06Conn) Read(p []byte) (int, error) {
 	for {
-		if len(c.script) == 0 {
+		if len(c.script) == 0 || c.script[0].kind == 'e' { // client closed: sticky
 			if c.armed {
-				return 0, c06TimeoutErr{}
+				if c.eofArmed {
+					return 0, c06TimeoutErr{}
+				}
+				c.eofArmed = true
 			}
 			return 0, io.EOF
 		}
@@ -168,10 +172,6 @@ func (c *c06Conn) Read(p []byte) (int, error) {
 				c.script = c.script[1:]
 			}
 			return n, nil
-		case 'e':
-			c.script = c.script[1:]
-			c.log = append(c.log, ev)
-			return 0, io.EOF
 		case 'r': // sticky: a reset connection keeps failing (the event stays at the head of the script)
 			return 0, c06ErrRst
 		default: // 's'
